@@ -662,7 +662,8 @@ where
         exhaustive: false,
         inconclusive: None,
     };
-    // Regression cases first.
+    // A failure (or an environment problem) in an earlier part stops that part's shards; it must not silence this one.
+    env.abort.store(false, Ordering::Relaxed);
     let shards = env.shards.max(1);
     let per_shard = opts.cases.div_ceil(shards as u64).max(1);
     let results: Vec<(Stats, Option<Failure>)> = std::thread::scope(|s| {
@@ -777,6 +778,7 @@ where
         exhaustive,
         inconclusive: None,
     };
+    env.abort.store(false, Ordering::Relaxed);
     let shards = env.shards.max(1);
     let results: Vec<(Stats, Option<Failure>)> = std::thread::scope(|s| {
         let handles: Vec<_> = (0..shards)
